@@ -667,8 +667,8 @@ class EQLTranslator:
             if not isinstance(values, list):
                 values = [values]
 
-            if len(values) == 1 and isinstance(values[0], (list, tuple)):
-                values = values[0]
+            if len(values) == 1 and isinstance(values[0], (list, tuple, set, frozenset)):
+                values = list(values[0])
 
             if len(values) != 1 or (values and not isinstance(values[0], str)):
                 column = self.translate_attribute(query.right)
